@@ -38,6 +38,7 @@ class Thing:
     def __init__(self):
         self.items = [1]
         self.n = 0
+        self.store = None
 
     def boom(self, code):
         raise CustomError(code, 'boom')
@@ -52,6 +53,14 @@ class Thing:
 
     def items_copy(self):
         return list(self.items)
+
+    def lookup(self, k):
+        # the hosted object uses another hosted object through a proxy it keeps (inside the server the proxy takes a
+        # shortcut); an error of that nested call must come out as the error it is
+        if self.store is None:
+            from mpservice.multiprocessing.server_process import managed_dict
+            self.store = managed_dict({'a': 1})
+        return self.store[k]
 
 
 def register():
@@ -69,7 +78,7 @@ def ops_for(kind):
                     ('iadd', '__iadd__', ([v],)), ('count', 'count', (v,)), ('index', 'index', (v,)), ('remove', 'remove', (v,))]
         out += [('extend', 'extend', ([0, 'a'],)), ('pop', 'pop', ()), ('get0', '__getitem__', (0,)), ('get5', '__getitem__', (5,)),
                 ('set9', '__setitem__', (9, 0)), ('sort', 'sort', ()), ('reverse', 'reverse', ()), ('len', '__len__', ()),
-                ('slice', '__getitem__', (slice(None),))]
+                ('slice', '__getitem__', (slice(None),)), ('imul', '__imul__', (2,)), ('iter', '__iter__', ())]
     elif kind == 'dict':
         for v in VALUES[:2]:
             out += [('set_a', '__setitem__', ('a', v)), ('set_k', '__setitem__', ('k', v)), ('setdefault', 'setdefault', ('k', v)),
@@ -77,7 +86,7 @@ def ops_for(kind):
         out += [('get_a', '__getitem__', ('a',)), ('get_missing', '__getitem__', ('zz',)), ('get', 'get', ('a',)),
                 ('get_default', 'get', ('zz', 5)), ('pop_a', 'pop', ('a',)), ('pop_missing', 'pop', ('zz',)), ('keys', 'keys', ()),
                 ('len', '__len__', ()), ('contains', '__contains__', ('a',)), ('popitem', 'popitem', ()), ('clear', 'clear', ()),
-                ('copy', 'copy', ())]
+                ('copy', 'copy', ()), ('iter', '__iter__', ())]
     elif kind == 'namespace':
         for v in VALUES[:2]:
             out += [('set_x', '__setattr__', ('x', v)), ('set_y', '__setattr__', ('y', v))]
@@ -87,6 +96,7 @@ def ops_for(kind):
         out += [('get', 'get', ()), ('set5', 'set', (5,)), ('set7', 'set', (7,))]
     elif kind == 'thing':
         out += [('boom1', 'boom', (1,)), ('boom_s', 'boom', ('s',)), ('bump', 'bump', (2,)), ('items_copy', 'items_copy', ()),
+                ('lookup_a', 'lookup', ('a',)), ('lookup_missing', 'lookup', ('zz',)),
                 ('managed_append', '@managed_append', (9,)), ('managed_len', '@managed_len', ()), ('managed_keep', '@managed_keep', ())]
     return out
 
